@@ -1474,6 +1474,185 @@ def find_tag(v, depth=0):
     return None
 
 
+def build_call_state(eng, K, mode_discr):
+    """DynCtx over a method table with ONE mentioned method (key0) whose FnMocker has K fully built patterns:
+    symbolic slot ranges, symbolic counters, a 2-segment response chain each (boundary n_k symbolic)."""
+    i_cc = field_index(eng, "CallPattern", "call_counter")
+    i_rg = field_index(eng, "CallPattern", "ordered_call_index_range")
+    i_rs = field_index(eng, "CallPattern", "responders")
+    i_ac = field_index(eng, "CallCounter", "actual_count")
+    st = lazy_adt("SharedState", "state")
+    fm = lazy_adt("FnMocker", "mocker0")
+    pats = []
+    for k in range(K):
+        cp = lazy_adt("CallPattern", f"pat{k}")
+        rg = Adt("Range", None)
+        rg.fields[(None, 0)] = Cell(Int(eng.named(f"pat{k}.start", 64), 64, False), "usize", f"pat{k}.start")
+        rg.fields[(None, 1)] = Cell(Int(eng.named(f"pat{k}.end", 64), 64, False), "usize", f"pat{k}.end")
+        cp.fields[(None, i_rg)] = Cell(rg, None, f"pat{k}.range")
+        rs = []
+        for j, start in enumerate((z3.BitVecVal(0, 64), eng.named(f"pat{k}.n1", 64))):
+            r = Adt("DynCallOrderResponder", None)
+            r.fields[(None, field_index(eng, "DynCallOrderResponder", "response_index"))] = Cell(Int(start, 64, False), "usize", "ri")
+            rr = Adt("DynResponder", None)
+            rr.tag = ("responder", k, j)
+            r.fields[(None, field_index(eng, "DynCallOrderResponder", "responder"))] = Cell(rr, None, f"pat{k}.resp{j}")
+            rs.append(Cell(r, None, f"pat{k}.responders[{j}]"))
+        cp.fields[(None, i_rs)] = Cell(VecVal(None, rs, "Vec"), None, f"pat{k}.responders")
+        cc = lazy_adt("CallCounter", f"pat{k}.counter")
+        at = Adt("Atomic", None)
+        at.fields[("atomic", 0)] = Cell(Int(eng.named(f"pat{k}.count", 64), 64, False), "usize", f"pat{k}.count")
+        cc.fields[(None, i_ac)] = Cell(at, None, f"pat{k}.actual_count")
+        cp.fields[(None, i_cc)] = Cell(cc, None, f"pat{k}.call_counter")
+        pats.append(Cell(cp, None, f"pat{k}"))
+    fm.fields[(None, field_index(eng, "FnMocker", "call_patterns"))] = Cell(VecVal(None, pats, "Vec"), None, "mocker0.call_patterns")
+    fm.fields[(None, field_index(eng, "FnMocker", "pattern_match_mode"))] = Cell(Adt("PatternMatchMode", mode_discr), None, "mocker0.mode")
+    st.fields[(None, field_index(eng, "SharedState", "fn_mockers"))] = Cell(MapVal([(Cell(Int(eng.named("key0", 64), 64, False), None, "key0"), Cell(fm, "FnMocker", "mocker0"))]), None, "state.fn_mockers")
+    g = Adt("Atomic", None)
+    g.fields[("atomic", 0)] = Cell(Int(eng.named("g", 64), 64, False), "usize", "g")
+    st.fields[(None, field_index(eng, "SharedState", "next_ordered_call_index"))] = Cell(g, None, "state.next_ordered_call_index")
+    ctx = lazy_adt("DynCtx", "ctx")
+    ctx.fields[(None, field_index(eng, "DynCtx", "shared_state"))] = Cell(Ref(Cell(st, None, "state")), None, "ctx.shared_state")
+    info = lazy_adt("MockFnInfo", "info")
+    info.fields[(None, field_index(eng, "MockFnInfo", "type_id"))] = Cell(Int(eng.named("key0", 64), 64, False), None, "type_id")   # the called method IS the mentioned one
+    ctx.fields[(None, field_index(eng, "DynCtx", "info"))] = Cell(info, None, "ctx.info")
+    return Ref(Cell(ctx, "DynCtx", "ctx"))
+
+
+def unit_call_path(eng, tier, prop):
+    """One call through eval_dyn with the scan, the ordered lookup and next_responder executed from their own MIR
+    (C01 / C02 / C04, and the atomic step lists C10 builds on): which pattern is selected, which response, which counters move."""
+    K = 3 if tier == "thorough" else 2
+    u = Unit(eng, "call-path", ["DynCtx::eval_dyn", "DynCtx::match_call_pattern", "FnMocker::find_call_pattern_for_call_order", "CallPattern::next_responder",
+                                "CallCounter::fetch_add", "SharedState::bump_ordered_call_index", "match_call_pattern::{closure#0..}", "find_call_pattern_for_call_order::{closure#0,1}"],
+             f"one call from an arbitrary state: {K} patterns of the called method with arbitrary 64-bit slot ranges (increasing), arbitrary match counts, a 2-segment response chain each (arbitrary boundary); every matcher verdict in {{reject, accept, error}}; both modes; find_responder_by_call_index replaced by its contract (Kani unit c02_find_responder_by_call_index)")
+    f = eng.find_fn(r"::eval_dyn$")
+    IN_ORDER = eng.variant_index("PatternMatchMode", "InOrder")
+    ANY = eng.variant_index("PatternMatchMode", "InAnyOrder")
+    hs = []
+
+    def add(rx, h):
+        it_ = (re.compile(rx), h)
+        eng.handlers.insert(0, it_)
+        hs.append(it_)
+
+    def h_find(call):
+        v = eng.vec_of(call, call.argv[0])
+        idx = call.argv[1]
+        n1 = v.items[1].val.fields[(None, field_index(eng, "DynCallOrderResponder", "response_index"))].val
+        k = eng.decide(call.m, ("find_resp", call.fr.bb), [z3.ULT(idx.e, n1.e), z3.UGE(idx.e, n1.e)])
+        call.m.event("responder_lookup", str(z3.simplify(idx.e)))
+        return eng.mk_enum("Option", "Some", Ref(v.items[k].val.fields[(None, field_index(eng, "DynCallOrderResponder", "responder"))]))
+    add(r"^find_responder_by_call_index$|call_pattern::find_responder_by_call_index$", h_find)
+
+    def cb(call, fobj, args):
+        pat = args[0].cell.name if args and isinstance(args[0], Ref) else "?"
+        rep = args[1] if len(args) > 1 else None
+        diag = isinstance(rep, Adt) and rep.discr == eng.variant_index("Option", "Some")
+        k = int(pat[3:]) if pat.startswith("pat") and pat[3:].isdigit() else -1
+        v = eng.named(f"verdict{k}", 64)
+        ch = eng.decide(call.m, ("verdict", call.fr.bb, k, len(call.m.trace)), [v == 0, v == 1, v == 2])
+        call.m.event("matcher", k, diag)
+        if ch == 2:
+            return eng.mk_enum("Result", "Err", Adt("PatternError", eng.variant_index("PatternError", "Downcast")))
+        return eng.mk_enum("Result", "Ok", Bool(z3.BoolVal(ch == 1)))
+    eng.callback_hook = cb
+    opaque = [r"^DynCtx::fn_call$", r"^FnMocker::debug_pattern$", r"^Mismatches::builder$", r"^MismatchesBuilder::(collect_from_reporter|build)$", r"^MismatchReporter::new_enabled$",
+              r"^SharedState::find_ordered_expected_call_pattern_debug$", r"^DynCtx::map_pattern_error$"]
+    try:
+        with opaque_calls(eng, opaque):
+            for mode in (ANY, IN_ORDER):
+                ref = build_call_state(eng, K, mode)
+                paths = u.explore(f, [ref, Ref(Cell(Opaque("dyn Fn", "match_inputs"), None, "match_inputs"))], note=f"[mode={mode}]")
+                g = eng.named("g", 64)
+                start = [eng.named(f"pat{k}.start", 64) for k in range(K)]
+                end = [eng.named(f"pat{k}.end", 64) for k in range(K)]
+                cnt = [eng.named(f"pat{k}.count", 64) for k in range(K)]
+                n1 = [eng.named(f"pat{k}.n1", 64) for k in range(K)]
+                ver = [eng.named(f"verdict{k}", 64) for k in range(K)]
+                inv = [z3.ULE(start[k], end[k]) for k in range(K)] + [z3.ULE(end[k], start[k + 1]) for k in range(K - 1)]
+                kinds = set()
+                for p in paths:
+                    if p.outcome[0] != "return":
+                        if p.outcome[0] == "panic":
+                            # counters wrap silently (fetch_add); no panic expected anywhere on the call path
+                            u.must_be_true(f"C07.call-path-never-panics[mode={mode}]", False, {"site": p.outcome[1]})
+                        continue
+                    val = p.outcome[1]
+                    root = p.user["_args"][0].val.cell.val
+                    stv = root.fields[(None, field_index(eng, "DynCtx", "shared_state"))].val.cell.val
+                    g_after = stv.fields[(None, field_index(eng, "SharedState", "next_ordered_call_index"))].val.fields[("atomic", 0)].val
+                    fmv = stv.fields[(None, field_index(eng, "SharedState", "fn_mockers"))].val.entries[0][1].val
+                    pv = fmv.fields[(None, field_index(eng, "FnMocker", "call_patterns"))].val.items
+                    c_after = [pv[k].val.fields[(None, field_index(eng, "CallPattern", "call_counter"))].val.fields[(None, field_index(eng, "CallCounter", "actual_count"))].val.fields[("atomic", 0)].val for k in range(K)]
+                    asked = [(e[1], e[2]) for e in events(p, "matcher")]
+                    atoms = [(e[1], e[2]) for e in events(p, "atomic")]
+                    is_ok = val.discr == eng.variant_index("Result", "Ok")
+                    payload = val.fields[("Ok" if is_ok else "Err", 0)].val
+                    sel = None
+                    if is_ok and eng.enums["EvalResult"][payload.discr] == "Responder":
+                        er = payload.fields[("Responder", 0)].val
+                        dr = er.fields[(None, field_index(eng, "EvalResponder", "dyn_responder"))].val
+                        tag = dr.cell.val.tag if isinstance(dr, Ref) and isinstance(dr.cell.val, Adt) else None
+                        sel = tag[1] if tag else None
+                        seg = tag[2] if tag else None
+                        pidx = er.fields[(None, field_index(eng, "EvalResponder", "pat_index"))].val.fields[(None, 0)].val
+                        u.must_hold(f"C19.reported-pattern-index-is-the-selected-one[mode={mode}]", list(p.pc) + inv, pidx.e == sel, {"sel": sel})
+                    ctx = {"mode": "ordered" if mode == IN_ORDER else "unordered", "selected": sel, "asked": asked}
+                    for k in range(K):
+                        bump = z3.BitVecVal(1 if k == sel else 0, 64)
+                        u.must_hold(f"C01.only-the-selected-pattern-is-counted[mode={mode}]", list(p.pc) + inv, c_after[k].e == cnt[k] + bump, ctx)
+                    if sel is not None:
+                        # C02: the response is chosen by the pattern's OWN previous match count (never by the global index)
+                        u.must_hold(f"C02.response-by-own-match-count[mode={mode}]", list(p.pc) + inv, z3.If(z3.ULT(cnt[sel], n1[sel]), seg == 0, seg == 1) if isinstance(seg, int) else z3.BoolVal(False), ctx)
+                    if mode == ANY:
+                        kinds.add("u:" + ("sel" if sel is not None else ("ok" if is_ok else "err")))
+                        u.must_hold(f"C04.unordered-call-never-consumes-a-slot", list(p.pc), g_after.e == g, ctx)
+                        first = z3.BitVecVal(K, 64)
+                        for k in reversed(range(K)):
+                            first = z3.If(ver[k] != 0, z3.BitVecVal(k, 64), first)
+                        if sel is not None:
+                            u.must_hold("C01.first-declared-accepting-pattern-answers", list(p.pc), z3.And(first == sel, ver[sel] == 1), ctx)
+                        # matchers run with diagnostics off during the scan, in declaration order, stopping at the first non-reject
+                        scan = [a for a in asked if not a[1]]
+                        u.must_be_true("C01.scan-in-declaration-order", [a[0] for a in scan] == list(range(len(scan))), ctx)
+                        if sel is None and is_ok:
+                            u.must_be_true("C07.unordered-unmatched-falls-through", eng.enums["EvalResult"][payload.discr] == "Unmock")
+                            u.must_hold("C07.unmatched-only-if-all-reject", list(p.pc), first == K, ctx)
+                        u.must_be_true("C10.unordered-step-list", atoms == ([("fetch_add", f"pat{sel}.count")] if sel is not None else []), {"atoms": atoms})
+                    else:
+                        kinds.add("o:" + ("sel" if sel is not None else "err"))
+                        u.must_hold("C04.ordered-call-always-advances-the-global-index", list(p.pc), g_after.e == g + 1, ctx)
+                        owner = z3.BitVecVal(K, 64)
+                        for k in reversed(range(K)):
+                            owner = z3.If(z3.And(z3.ULE(start[k], g), z3.ULT(g, end[k])), z3.BitVecVal(k, 64), owner)
+                        if sel is not None:
+                            u.must_hold("C04.slot-owner-answers-iff-it-accepts", list(p.pc) + inv, z3.And(owner == sel, ver[sel] == 1), ctx)
+                            u.must_be_true("C04.only-the-owner-is-consulted-with-diagnostics", asked == [(sel, True)], ctx)
+                        else:
+                            u.must_be_true("C04.deviating-ordered-call-is-an-error", not is_ok, ctx)
+                            ek = eng.enums["MockError"][payload.discr] if isinstance(payload, Adt) and isinstance(payload.discr, int) else "mapped"
+                            if ek == "CallOrderNotMatchedForMockFn":
+                                u.must_hold("C04.wrong-method-or-past-the-end", list(p.pc) + inv, owner == K, ctx)
+                                u.must_be_true("C04.no-matcher-consulted-for-a-foreign-slot", asked == [], ctx)
+                            elif ek == "InputsNotMatchedInCallOrder":
+                                k0 = asked[0][0] if asked else None
+                                u.must_hold("C04.owner-rejected-the-arguments", list(p.pc) + inv, z3.And(owner == k0, ver[k0] == 0) if k0 is not None else z3.BoolVal(False), ctx)
+                        exp_atoms = [("fetch_add", "g")] + ([("fetch_add", f"pat{sel}.count")] if sel is not None else [])
+                        u.must_be_true("C10.ordered-step-list", atoms == exp_atoms, {"atoms": atoms})
+                        if atoms:
+                            u.must_be_true("C04.index-claimed-before-anything-else", p.trace.index(("atomic",) + atoms[0]) < min([i for i, e in enumerate(p.trace) if e[0] == "matcher"] + [10 ** 6]), ctx)
+                dom = [z3.ULE(v, 2) for v in ver] + [z3.ULE(eng.named("state.%d.discr" % field_index(eng, "SharedState", "fallback_mode"), 64), 1)]
+                u.must_be_unsat(f"call-path.covers-all-inputs[mode={mode}]", dom + inv + [z3.Not(z3.Or([z3.And(p.pc) if p.pc else z3.BoolVal(True) for p in paths if p.outcome[0] == "return"]))])
+                need = {"u:sel", "u:ok", "u:err"} if mode == ANY else {"o:sel", "o:err"}
+                u.witness(f"outcome kinds[mode={mode}] missing={sorted(need - kinds)}", [z3.BoolVal(need <= kinds)])
+    finally:
+        for it_ in hs:
+            eng.handlers.remove(it_)
+        eng.callback_hook = None
+    return u.result()
+
+
 def unit_todo(eng, tier, prop):
     u = Unit(eng, "todo", [], "")
     u.errors.append("unit not implemented yet")
@@ -1481,6 +1660,7 @@ def unit_todo(eng, tier, prop):
 
 
 UNITS = {
+    "call_path": unit_call_path,
     "builder_chains": unit_builder_chains,
     "assembler": unit_assembler,
     "eval_dyn": unit_eval_dyn,
